@@ -88,14 +88,15 @@ def _jsonable(o):
 
 
 def load_findings():
-    path = os.path.join(HERE, 'known_findings.jsonl')
+    path = os.path.join(HERE, 'known_findings.txt')
     known = []
     if os.path.exists(path):
         for line in open(path):
             line = line.strip()
-            if not line or line.startswith('#'):
-                continue
-            known.append(json.loads(line))
+            if line.startswith('known:'):
+                rec = json.loads(line[len('known:'):])
+                rec['status'] = 'known'
+                known.append(rec)
     return known
 
 
